@@ -302,6 +302,14 @@ pub fn run(run: &RunInfo) -> Summary {
             }
         }
     });
+    // the firmware upload (its replies are data requests answered with data blocks)
+    if !skip_for_replay(run, "c06/WriteFile/") {
+        let a = crate::wf::c06_part(run);
+        acc.merge(a);
+    }
+    if acc.get("w_upload_fault_reported") > 0 && acc.get("w_upload_fault_after_last_byte") > 0 {
+        acc.witness("faults in the firmware upload, also after the last byte of the file was sent, produced exactly one error");
+    }
     drop(silencer);
     for k in ["nack", "foreign", "malformed", "eof"] {
         if acc.get(&format!("ok:{k}")) > 0 {
@@ -312,23 +320,25 @@ pub fn run(run: &RunInfo) -> Summary {
     acc.sample(json!({"sequence": "Registration", "fault": "nack-849c in the acknowledgement slot", "expected": "one error, nothing written after the command"}));
     let execs = acc.get("executions");
     acc.count("evaluations", execs);
+    let updepth = depth + 1;
     Summary {
         states: acc.set_len("outcomes"),
         transitions: acc.get("transitions"),
         traces_validated: execs,
         distinct_nontrivial: acc.set_len("outcomes"),
-        rule: format!("17 sequences x every valid reply-script prefix of <= {depth} non-final letters x fault in the next slot: NACK 84xx (00, 83, 9C, FF), a bare acknowledgement, every packet of the other reply alphabets, one-byte neighbours of every listed control field (with and without body), malformed bodies the reference decoder rejects as well (empty body before a mandatory field, duplicated tag, last prefixed field cut short, missing mandatory tag), every truncation of every in-set packet followed by the end of the stream, end of stream between packets; every complete faulty packet both followed by the end of the stream and by a well-formed rest of the exchange; in the acknowledgement slot: NACKs, every reply packet, neighbours of 80 00, truncated acknowledgements. distinct_nontrivial = distinct (sequence, prefix, fault) cases"),
+        rule: format!("firmware upload: every word of <= {updepth} data requests over the three blocks of a 17-byte file (incl. words after which every byte has been sent) x 10 complete faulty packets (followed by the end of the stream and by a well-formed rest) and every truncation of a completion and of a data request, in the reply slot and in the place of the acknowledgement of the file list; 17 sequences x every valid reply-script prefix of <= {depth} non-final letters x fault in the next slot: NACK 84xx (00, 83, 9C, FF), a bare acknowledgement, every packet of the other reply alphabets, one-byte neighbours of every listed control field (with and without body), malformed bodies the reference decoder rejects as well (empty body before a mandatory field, duplicated tag, last prefixed field cut short, missing mandatory tag), every truncation of every in-set packet followed by the end of the stream, end of stream between packets; every complete faulty packet both followed by the end of the stream and by a well-formed rest of the exchange; in the acknowledgement slot: NACKs, every reply packet, neighbours of 80 00, truncated acknowledgements. distinct_nontrivial = distinct (sequence, prefix, fault) cases"),
         exhaustive: true,
         required_witnesses: vec![
             "fault kind 'nack' produced exactly one error and silence".into(),
             "fault kind 'foreign' produced exactly one error and silence".into(),
             "fault kind 'malformed' produced exactly one error and silence".into(),
             "fault kind 'eof' produced exactly one error and silence".into(),
+            "faults in the firmware upload, also after the last byte of the file was sent, produced exactly one error".into(),
         ],
         assumptions: vec![
             "malformed bodies are restricted to kinds the packet type's own decoder must reject (C02/C13); lenient decoding of unknown tags is not a fault".into(),
             "an acknowledgement with a non-empty body (80 00 nn ..) is outside the alphabet".into(),
-            "the firmware upload's failure paths are covered by C11".into(),
+            "invalid data requests of the firmware upload are covered by C11; transport and framing faults of the upload here".into(),
         ],
         bounds: json!({"prefix_length": depth}),
         caps_hit: vec![],
